@@ -43,6 +43,8 @@ func init() {
 		Real: realParts, Stub: stubParts, FaultsNotInjected: notInjected, Assumptions: assumptions,
 		QuickBudget: 45 * time.Second, ThoroughBudget: 15 * time.Minute, MinRuns: 16,
 		Exec: runC06, PanicClass: kit.PanicInRepo("panic-in-block-processing"),
+		// reach probes every batch is expected to hit (listed in the evidence as probes_never_hit otherwise)
+		ExpectedProbes: []string{"delegation_add_failed", "delegation_sub_effect", "delegation_sub_failed", "deposit_failed", "gas-refund-earning-call-applied", "period-end", "recover_from_expired_expelling", "reorg-to-main-chain", "slash-data-in-header", "slashing", "withdraw_effect", "withdraw_result"},
 	})
 	kit.Register(&kit.Check{
 		Prop: "C07", Name: "chain", World: "CHAIN", Level: "exploration",
@@ -51,6 +53,8 @@ func init() {
 		Real: realParts, Stub: stubParts, FaultsNotInjected: notInjected, Assumptions: append([]string{"contracts never SELFDESTRUCT to themselves (EVM burns that balance by design)", "nobody sends to the rewards-pool or penalty accounts"}, assumptions...),
 		QuickBudget: 45 * time.Second, ThoroughBudget: 15 * time.Minute, MinRuns: 16,
 		Exec: runC07, PanicClass: kit.PanicInRepo("panic-in-block-processing"),
+		// reach probes every batch is expected to hit (listed in the evidence as probes_never_hit otherwise)
+		ExpectedProbes: []string{"change_status_failed", "delegation_add_failed", "delegation_sub_effect", "delegation_sub_failed", "deposit_failed", "gas-refund-earning-call-applied", "inactivity-penalty-paid", "penalty-paid", "period-end", "recover_from_expired_expelling", "rewards-settled", "slash-data-in-header", "slashing", "subsidy-paid", "validator-deleted", "withdraw-paid", "withdraw-record-created", "withdraw-record-delegator", "withdraw-record-discarded", "withdraw-record-penalised", "withdraw_effect", "withdraw_result"},
 	})
 	kit.Register(&kit.Check{
 		Prop: "C08", Name: "chain", World: "CHAIN", Level: "exploration",
@@ -58,5 +62,7 @@ func init() {
 		Real: realParts, Stub: stubParts, FaultsNotInjected: notInjected, Assumptions: assumptions,
 		QuickBudget: 45 * time.Second, ThoroughBudget: 15 * time.Minute, MinRuns: 16, Share: 1,
 		Exec: runC08, PanicClass: kit.PanicInRepo("panic-in-block-processing"),
+		// reach probes every batch is expected to hit (listed in the evidence as probes_never_hit otherwise)
+		ExpectedProbes: []string{"change_status_failed", "delegation_add_failed", "delegation_sub_effect", "delegation_sub_failed", "deposit_failed", "gas-refund-earning-call-applied", "period-end", "recover_from_expired_expelling", "slash-data-in-header", "slashing", "validator-with-delegations", "withdraw_effect", "withdraw_result"},
 	})
 }
